@@ -431,6 +431,15 @@ func (c *Ctx) ruleW1() {
 				}
 			}
 			cons := fk + "→Get(" + getKeys[i] + ")→Send"
+			if flows && c.isLocalHeadKey(getKeys[i]) {
+				// the head of the node's own writes must be in the message on EVERY path, not just
+				// on some: no phi on the way may select between a value carrying it and one that does not
+				if phi := selectionWithout(d); phi != nil {
+					c.bad("W1", cons+"#always", bestPos(phi), "on some path the message sent to a joining peer leaves out the heads cached under "+getKeys[i]+" (the value sent is selected between one built from them and one that is not): writes made after the last merged batch are never re-announced once their own announcement was lost")
+				} else {
+					c.ok("W1", cons+"#always", bestPos(g.(ssa.Instruction)), "no selection on the way to the message can leave the locally written head out")
+				}
+			}
 			if flows {
 				c.ok("W1", cons, bestPos(g.(ssa.Instruction)), "heads read from this key are part of the message sent to the joining peer")
 			} else {
@@ -552,4 +561,63 @@ func (c *Ctx) ruleW1() {
 	}
 	c.floor("W1", "announcement publishers", nPub, 1)
 	_ = types.Typ
+}
+
+// isLocalHeadKey: the key is persisted by a function that appends to the log.
+func (c *Ctx) isLocalHeadKey(key string) bool {
+	for _, f := range c.RepoFns {
+		if c.isTestFile(f.Pos()) || c.isControlFn(f) {
+			continue
+		}
+		hasApp, hasPut := false, false
+		eachCall(f, func(call ssa.CallInstruction) {
+			if c.isLogCall(call, "Append") {
+				hasApp = true
+			}
+			if k, ok := c.cachePutKey(call); ok && k == key {
+				hasPut = true
+			}
+		})
+		if hasApp && hasPut {
+			return true
+		}
+	}
+	return false
+}
+
+// selectionWithout: within a derived set, a phi that merges a derived value with an
+// alternative that is not derived, other than the accumulator idiom (the phi of a loop
+// header whose non-derived edges are its initial value from outside the loop, or itself).
+func selectionWithout(d map[ssa.Value]bool) *ssa.Phi {
+	for v := range d {
+		phi, ok := v.(*ssa.Phi)
+		if !ok {
+			continue
+		}
+		// only phis of container/pointer-ish values matter (slices, byte slices, pointers)
+		switch phi.Type().Underlying().(type) {
+		case *types.Slice, *types.Pointer, *types.Map:
+		default:
+			continue
+		}
+		hdr := loopHeader(phi.Block())
+		isHeaderPhi := hdr != nil && hdr == phi.Block()
+		for i, e := range phi.Edges {
+			if d[e] || e == ssa.Value(phi) {
+				continue
+			}
+			if isNilConst(e) {
+				// nil alternative: nothing sent instead — still a path without the value
+			}
+			pred := phi.Block().Preds[i]
+			if isHeaderPhi && !sameLoop(hdr, pred) {
+				continue // initial value of an accumulator
+			}
+			if ph2, ok := e.(*ssa.Phi); ok && d[ph2] {
+				continue
+			}
+			return phi
+		}
+	}
+	return nil
 }
